@@ -62,10 +62,24 @@ package attribute
 //@ spec setAt(d Distinct, i int) KeyValue
 //@ axiom setLen_nonneg: forall d Distinct : setLen(d) >= 0 && setLen(d) <= 2305843009213693952
 
+// computeDistinct: the fixed-size path is tried first with the very slice, the reflect path only for 0 or more than 10 attributes,
+// again with the very slice; that the resulting storage shows exactly kvs through the (uninterpreted) view is ASSUMED (`assumes`),
+// not proved - the reflect-built array cannot be related to the view by the engine
 //@ func computeDistinct(kvs []KeyValue) (d Distinct)
-//@   prop -
-//@   trusted "array storage built through reflect for more than 10 attributes; fixed-size path (computeDistinctFixed) is proved"
-//@   ensures setLen(d) == len(kvs) && (forall i in 0 .. len(kvs) : setAt(d, i) == kvs[i])
+//@   prop C05
+//@   overflow assumed
+//@   unchecked frame,no-panic the reflect path allocates through reflect
+//@   assumes setLen(d) == len(kvs) && (forall i in 0 .. len(kvs) : setAt(d, i) == kvs[i])
+//@   assert@call computeDistinctFixed#1 : $arg0 === kvs
+//@   assert@call computeDistinctReflect#1 : $arg0 === kvs && (len(kvs) == 0 || len(kvs) > 10)
+// computeDistinctReflect: the array type has exactly len(kvs) elements (not the capacity, not a rounded size) of the key-value
+// type, and element i of it is addressed when kvs[i] is copied
+//@ func computeDistinctReflect(kvs []KeyValue) (r interface{})
+//@   prop C05
+//@   overflow assumed
+//@   unchecked frame,no-panic storage built and written through reflect
+//@   assert@call ArrayOf#1 : $arg0 == len(kvs) && $arg1 == keyValueType
+//@   assert@call Value.Index#* : $arg1 == i && 0 <= i && i < len(kvs)
 //@ func (l *Set) Len() (n int)
 //@   prop -
 //@   trusted "reads the reflect-built storage"
